@@ -8,7 +8,9 @@ CONSTANTS
   BgPool <- BgPoolDef
   XaPool <- XaPoolDef
   TgtPool <- TgtPoolDef
+  WPool <- WPoolDef
   MaxDK = 60
+  Mode = "all"
   Depth = 5
 VIEW EstView
 INVARIANT AnswersDependOnStateOnly
